@@ -18,6 +18,8 @@ import EaselModel.Msa.LemmasRbbOk
 import EaselModel.Msa.LemmasCmp
 import EaselModel.Msa.LemmasConv2
 import EaselModel.Msa.LemmasRbbSs
+import EaselModel.Msa.LemmasPk4
+import EaselModel.Msa.LemmasPk5
 /-! # C15 — alignment transformations keep the alignment well formed and the residues intact; WUSS round trips
 
 Property theorems only; proofs are glue on the lemmas of `EaselModel/Msa/Lemmas*.lean`.
@@ -228,6 +230,25 @@ theorem sequenceSubset_keeps_markup (m : Msa) (useme : List Bool) (b : Msa)
   obtain ⟨_, rfl⟩ := sequenceSubset_ok m useme b h
   exact (subset_tables m useme hgs hgr).2.2.2.2 o ho hu tag
 
+/-- SPARSE markup at full strength, from the side of the NEW alignment: every slot `j < nseq'` of every GS / GR tag of the
+    subset is the slot of exactly the retained sequence `o` with `rankOf useme o = j` — a sequence that did NOT carry a
+    tag does not acquire one (`none` stays `none`), one that did keeps its own value, whatever the other sequences
+    carry; and a tag none of whose values is retained has only empty slots -/
+theorem sequenceSubset_markup_exact (m : Msa) (useme : List Bool) (b : Msa)
+    (hgs : (m.gs.map (·.1)).Nodup) (hgr : (m.gr.map (·.1)).Nodup) (h : sequenceSubset m useme = .ok b)
+    (j : Nat) (hj : j < b.nseq) :
+    ∃ o, o < m.nseq ∧ useme.getD o false = true ∧ rankOf useme o = j ∧
+      ∀ tag, tblLookup tag j b.gs = tblLookup tag o m.gs ∧
+             tblLookup tag j b.gr = (tblLookup tag o m.gr).bind (fun v => if v.isEmpty then none else some v) := by
+  obtain ⟨hn, rfl⟩ := sequenceSubset_ok m useme b h
+  have hj' : j < rankOf useme m.nseq := by
+    simpa [sequenceSubsetMsa, countSelected_eq_rank] using hj
+  obtain ⟨o, ho, hu, hr⟩ := rank_surj useme m.nseq j hj'
+  refine ⟨o, ho, hu, hr, fun tag => ?_⟩
+  have := (subset_tables m useme hgs hgr).2.2.2.2 o ho hu tag
+  rw [hr] at this
+  exact this
+
 /-- `esl_msa_Clone` / `esl_msa_Copy` duplicate every field (and, being functions, leave the input unchanged) -/
 theorem clone_is_identity (m : Msa) : clone m = m := rfl
 
@@ -422,6 +443,86 @@ theorem nopk_repaired_then_compacted (ss : Bytes) (mask : List Bool) (hnl : ∀ 
 theorem pk_roundtrip (n : Nat) (ct : List Nat) (hct : CtOk n ct) (ss : Bytes) (h : ct2wuss ct = .ok ss) :
     wuss2ct ss = some ct :=
   pk_roundtrip' n ct hct ss h
+
+/-- TOTALITY of `esl_ct2wuss` on EVERY symmetric pair table (crossing pairs allowed): it returns `eslOK`, or its documented
+    `eslEINVAL` "Don't have enough letters to describe all different pseudoknots" (`einvalLetters`, carrying the partial
+    string left in the caller's buffer) — it never reads or writes outside `ct[] / cct[] / ss[] / rb[26]`, never reports
+    "Cannot find left partner", never `eslEINCONCEIVABLE` "no such face code", never `eslFAIL` "found %d out of %d pairs" -/
+theorem ct2wuss_total (n : Nat) (ct : List Nat) (hct : CtOk n ct) :
+    (∃ ss, ct2wuss ct = .ok ss) ∨ (∃ p, ct2wuss ct = .error (.einvalLetters p)) :=
+  ct2wuss_total' n ct hct
+
+/-- TARGET STATEMENT for every pair table `esl_wuss2ct` can produce (nested brackets + any of the 26 pseudoknot letter
+    classes): `esl_ct2wuss` either fails with its documented status ("not enough letters") or produces a string that
+    `esl_wuss2ct` reads back as THE SAME pair table -/
+theorem wuss_ct_wuss_ct_total (ss : Bytes) (ct : List Nat) (h : wuss2ct ss = some ct) :
+    (∃ ss2, ct2wuss ct = .ok ss2 ∧ ss2.length = ss.length ∧ wuss2ct ss2 = some ct) ∨
+    (∃ p, ct2wuss ct = .error (.einvalLetters p)) := by
+  have hct := wuss2ct_ctOk ss ct h
+  rcases ct2wuss_total' ss.length ct hct with ⟨ss2, h2⟩ | ⟨p, hp⟩
+  · exact Or.inl ⟨ss2, h2, (ct2wuss_class_labels ss.length ct hct ss2 h2).1, pk_roundtrip' ss.length ct hct ss2 h2⟩
+  · exact Or.inr ⟨p, hp⟩
+
+/-- ... and `esl_msa_RemoveBrokenBasepairsFromSS` on ANY string: `eslESYNTAX` iff the line is not balanced WUSS; otherwise
+    `eslOK` with a line of the same length that reads back as EXACTLY the pairs with both partners retained, or the
+    documented "not enough letters" failure of `esl_ct2wuss` — nothing else -/
+theorem removeBroken_total (ss : Bytes) (useme : List Bool) :
+    (wuss2ct ss = none ∧ removeBrokenFromSS ss useme = .error .esyntax) ∨
+    (∃ ct, wuss2ct ss = some ct ∧
+      ((∃ ss', removeBrokenFromSS ss useme = .ok ss' ∧ ss'.length = ss.length ∧
+          wuss2ct ss' = some (breakPairs useme 1 ss.length ct)) ∨
+       (∃ p, removeBrokenFromSS ss useme = .error (.einvalLetters p)))) := by
+  cases h : wuss2ct ss with
+  | none => exact Or.inl ⟨rfl, by simp [removeBrokenFromSS, h]⟩
+  | some ct =>
+    right
+    refine ⟨ct, rfl, ?_⟩
+    have hct := wuss2ct_ctOk ss ct h
+    have hb := (breakPairs_ctOk_nested useme ss.length ct hct).1
+    simp only [removeBrokenFromSS, h]
+    rcases ct2wuss_total' ss.length _ hb with ⟨ss2, h2⟩ | ⟨p, hp⟩
+    · exact Or.inl ⟨ss2, h2, (ct2wuss_class_labels ss.length _ hb ss2 h2).1, pk_roundtrip' ss.length _ hb ss2 h2⟩
+    · exact Or.inr ⟨p, hp⟩
+
+/-- the decidable predicate "the pseudoknot lettering of `esl_ct2wuss` runs out of the letters `A..Z` on this table" -/
+def lettersExhausted (ct : List Nat) : Bool :=
+  match ct2wuss ct with
+  | .error (.einvalLetters _) => true
+  | _ => false
+
+/-- `ct2wuss_ok_iff`: on a symmetric pair table `esl_ct2wuss` returns `eslOK` IF AND ONLY IF its greedy lettering does not
+    run out of letters — there is no other obstacle (bounds, partners, face codes, pair count). The greedy lettering has no
+    simpler closed form (a letter is re-used only past its right bound `rb[]`, and within one batch letters only grow), so
+    the exact predicate is the lettering run itself; `ct2wuss_ok_of_few_pk` gives the combinatorial bound. -/
+theorem ct2wuss_ok_iff (n : Nat) (ct : List Nat) (hct : CtOk n ct) :
+    (∃ ss, ct2wuss ct = .ok ss) ↔ lettersExhausted ct = false := by
+  unfold lettersExhausted
+  rcases ct2wuss_total' n ct hct with ⟨ss, h⟩ | ⟨p, h⟩
+  · rw [h]; exact ⟨fun _ => rfl, fun _ => ⟨ss, rfl⟩⟩
+  · rw [h]; exact ⟨fun ⟨ss, h'⟩ => (by cases h'), fun h' => (by cases h')⟩
+
+/-- COMBINATORIAL SUFFICIENT CONDITION. Call a pair `(p, ct[p])` pseudoknotted when some pair opened before it closes
+    inside it (`q < p < ct[q] < ct[p]`, `isPkPair`; `pkPairs ct` lists them). A symmetric table with AT MOST 26
+    pseudoknotted pairs is always converted, and the result reads back as the same table. Equivalently: "not enough
+    letters" needs at least 27 pseudoknotted pairs. The bound is attained (`w27` below has exactly 27 and is refused) and
+    is not necessary (one helix of 30 pseudoknotted pairs takes one letter, example below). -/
+theorem ct2wuss_ok_of_few_pk (n : Nat) (ct : List Nat) (hct : CtOk n ct) (hfew : (pkPairs ct).length ≤ 26) :
+    ∃ ss, ct2wuss ct = .ok ss ∧ wuss2ct ss = some ct := by
+  obtain ⟨ss, h⟩ := ct2wuss_ok_of_few' n ct hct hfew
+  exact ⟨ss, h, pk_roundtrip' n ct hct ss h⟩
+
+theorem ct2wuss_fails_needs_27 (n : Nat) (ct : List Nat) (hct : CtOk n ct) (h : lettersExhausted ct = true) :
+    27 ≤ (pkPairs ct).length := by
+  rcases Nat.lt_or_ge (pkPairs ct).length 27 with hlt | hge
+  · obtain ⟨ss, hok⟩ := ct2wuss_ok_of_few' n ct hct (by omega)
+    simp [lettersExhausted, hok] at h
+  · exact hge
+
+/-- hence for WUSS strings: a balanced string with at most 26 pseudoknotted pairs always survives wuss -> ct -> wuss -> ct,
+    and `esl_msa_RemoveBrokenBasepairsFromSS` (which only removes pairs) cannot fail on it -/
+theorem wuss_few_pk_roundtrip (ss : Bytes) (ct : List Nat) (h : wuss2ct ss = some ct) (hfew : (pkPairs ct).length ≤ 26) :
+    ∃ ss2, ct2wuss ct = .ok ss2 ∧ wuss2ct ss2 = some ct :=
+  ct2wuss_ok_of_few_pk ss.length ct (wuss2ct_ctOk ss ct h) hfew
 
 /-- what `esl_ct2wuss` writes for an arbitrary table: `n` symbols; unpaired positions carry unpaired symbols, every
     pair a bracket pair or an upper/lower letter pair, and pairs that share a stack never cross -/
@@ -641,6 +742,99 @@ theorem minimGaps_digital_nucleic (m : Msa) (a : Abc) (gaps : Bytes) (considerRf
     refine ⟨rfl, hwf, by rw [hform]; rfl, fun r hr => ?_⟩
     exact dealign_maskFilter _ _ r (by rw [hl, (wf.rows_ok r hr).1]) (minimGapsDigitalMask_removesOnlyGaps m a considerRf r hr)
   · rw [e]; exact (columnSubset_nucleic m _ a wf habc hn hl).2 hbad
+
+/-! ## compaction_pairs_exact: repair + compaction, whichever entry point runs them -/
+
+/-- THE TWO STEPS every column-removing entry point performs on a structure-carrying alignment — the documented repair
+    `esl_msa_RemoveBrokenBasepairs(msa, useme)` followed by the in-place compaction — leave, for SS_cons AND for the SS
+    line of EVERY sequence that has one, a balanced WUSS string whose pairs are EXACTLY the original pairs both of whose
+    columns survive (`breakPairs`, characterised pointwise by `removeBroken_keeps_exactly`), renumbered by the column map
+    `newPos` (old column -> its rank among the kept ones, `newPos_agrees`); the alignment is well formed and the rows are
+    the filtered ORIGINAL rows. Pseudoknotted lines included. -/
+theorem compaction_pairs_exact (m : Msa) (mask : List Bool) (wf : m.WF) (hm : mask.length = m.alen)
+    (hrok : (removeBrokenBasepairs m mask).st = .ok) :
+    ((removeBrokenBasepairs m mask).msa.colFilter mask).WF ∧
+    ((removeBrokenBasepairs m mask).msa.colFilter mask).rows = m.rows.map (maskFilter mask) ∧
+    (∀ ss ct, m.ss_cons = some ss → wuss2ct ss = some ct →
+      ∃ ss2 ps, ((removeBrokenBasepairs m mask).msa.colFilter mask).ss_cons = some ss2 ∧
+        ss2.length = ((removeBrokenBasepairs m mask).msa.colFilter mask).alen ∧
+        breakPairs mask 1 ss.length ct = tableOf (List.replicate (ss.length + 1) 0) ps ∧
+        wuss2ct ss2 = some (tableOf (List.replicate (ss2.length + 1) 0) (relabelPs (newPos mask) ps))) ∧
+    (∀ (i : Nat) s ct, m.ss[i]? = some (some s) → wuss2ct s = some ct →
+      ∃ s2 ps, ((removeBrokenBasepairs m mask).msa.colFilter mask).ss[i]? = some (some s2) ∧
+        breakPairs mask 1 s.length ct = tableOf (List.replicate (s.length + 1) 0) ps ∧
+        wuss2ct s2 = some (tableOf (List.replicate (s2.length + 1) 0) (relabelPs (newPos mask) ps))) ∧
+    (m.ss_cons = none → ((removeBrokenBasepairs m mask).msa.colFilter mask).ss_cons = none) := by
+  obtain ⟨wf', hal, sc, ss', hform⟩ := removeBrokenBasepairs_wf m mask wf hrok
+  have hm' : mask.length = (removeBrokenBasepairs m mask).msa.alen := by rw [hal]; exact hm
+  have hwf := colFilter_wf _ mask wf' hm'
+  refine ⟨hwf, by rw [hform]; rfl, ?_, ?_, ?_⟩
+  · intro ss ct hss h
+    obtain ⟨ss1, h1, h2⟩ := removeBrokenBasepairs_sscons' m mask ss hss hrok
+    have hlen : ss.length = m.alen := (wf.ss_cons_ok ss hss).1
+    obtain ⟨ps, hp1, hp2⟩ := columnSubset_pairs_pk ss ss1 mask ct h (by rw [hm, hlen]) h1
+    refine ⟨maskFilter mask ss1, ps, by simp [Msa.colFilter, h2], ?_, hp1, hp2⟩
+    exact (hwf.ss_cons_ok (maskFilter mask ss1) (by simp [Msa.colFilter, h2])).1
+  · intro i s ct hs h
+    obtain ⟨l', hl, hss⟩ := removeBrokenBasepairs_ss' m mask hrok
+    obtain ⟨s1, h1, h2⟩ := (rbbSeqs_getElem mask m.ss l' hl i).1 s hs
+    have hlen : s.length = m.alen := (wf.ss_ok (some s) (List.mem_of_getElem? hs) s rfl).1
+    obtain ⟨ps, hp1, hp2⟩ := columnSubset_pairs_pk s s1 mask ct h (by rw [hm, hlen]) h1
+    exact ⟨maskFilter mask s1, ps, by simp [Msa.colFilter, hss, h2], hp1, hp2⟩
+  · intro hnone
+    have : (removeBrokenBasepairs m mask).msa.ss_cons = none := by
+      simp only [removeBrokenBasepairs, hnone]
+      cases hq : rbbSeqs mask m.ss with
+      | mk l e => cases e <;> rfl
+    simp [Msa.colFilter, this]
+
+/-- the entry points that run exactly those two steps, so that `compaction_pairs_exact` speaks about their result:
+    DNA/RNA `esl_msa_ColumnSubset`; digital DNA/RNA `esl_msa_MinimGaps` and `esl_msa_NoGaps` (= ColumnSubset with the
+    all-gap / any-gap mask); text-mode `esl_msa_MinimGapsText` / `esl_msa_NoGapsText` with `fix_bps = TRUE`. When the
+    repair reports an error (an SS line that is not balanced WUSS, or one `esl_ct2wuss` has not enough letters for) that
+    status is returned and no column is removed. -/
+theorem compaction_entry_points (m : Msa) (wf : m.WF) :
+    (∀ a mask, m.abc = some a → a.isNucleic = true → mask.length = m.alen →
+      columnSubset m mask = (if (removeBrokenBasepairs m mask).st = .ok
+        then { msa := (removeBrokenBasepairs m mask).msa.colFilter mask, st := .ok } else removeBrokenBasepairs m mask)) ∧
+    (∀ a gaps rf, m.isDigital = true → m.abc = some a → minimGaps m gaps rf = columnSubset m (minimGapsDigitalMask m a rf)) ∧
+    (∀ a gaps, m.isDigital = true → m.abc = some a → noGaps m gaps = columnSubset m (noGapsDigitalMask m a)) ∧
+    (∀ gaps rf, m.abc = none →
+      minimGapsText m gaps rf true = (if (removeBrokenBasepairs m (minimGapsTextMask m gaps rf)).st = .ok
+        then { msa := (removeBrokenBasepairs m (minimGapsTextMask m gaps rf)).msa.colFilter (minimGapsTextMask m gaps rf), st := .ok }
+        else removeBrokenBasepairs m (minimGapsTextMask m gaps rf))) ∧
+    (∀ gaps, m.abc = none →
+      noGapsText m gaps true = (if (removeBrokenBasepairs m (noGapsTextMask m gaps)).st = .ok
+        then { msa := (removeBrokenBasepairs m (noGapsTextMask m gaps)).msa.colFilter (noGapsTextMask m gaps), st := .ok }
+        else removeBrokenBasepairs m (noGapsTextMask m gaps))) := by
+  have text : ∀ mask : List Bool, mask.length = m.alen → m.abc = none → (removeBrokenBasepairs m mask).st = .ok →
+      columnSubset (removeBrokenBasepairs m mask).msa mask = { msa := (removeBrokenBasepairs m mask).msa.colFilter mask, st := .ok } := by
+    intro mask hm habc hok
+    obtain ⟨wf', hal, sc, ss', hform⟩ := removeBrokenBasepairs_wf m mask wf hok
+    apply columnSubset_is_filter _ mask wf' (by rw [hal]; exact hm)
+    intro a ha
+    rw [hform] at ha
+    simp only [habc] at ha
+    cases ha
+  refine ⟨?_, ?_, ?_, ?_, ?_⟩
+  · intro a mask habc hn hm
+    by_cases hok : (removeBrokenBasepairs m mask).st = .ok
+    · rw [if_pos hok]; exact ((columnSubset_nucleic m mask a wf habc hn hm).1 hok).1
+    · rw [if_neg hok]; exact (columnSubset_nucleic m mask a wf habc hn hm).2 hok
+  · intro a gaps rf hd habc; simp only [minimGaps, hd, habc, if_true]
+  · intro a gaps hd habc; simp only [noGaps, hd, habc, if_true]
+  · intro gaps rf habc
+    have hl := minimGapsTextMask_length m gaps rf
+    by_cases hok : (removeBrokenBasepairs m (minimGapsTextMask m gaps rf)).st = .ok
+    · rw [if_pos hok]; simp only [minimGapsText, if_true, hok, bne_self_eq_false, Bool.false_eq_true, if_false]
+      exact text _ hl habc hok
+    · rw [if_neg hok]; simp [minimGapsText, hok]
+  · intro gaps habc
+    have hl := noGapsTextMask_length m gaps
+    by_cases hok : (removeBrokenBasepairs m (noGapsTextMask m gaps)).st = .ok
+    · rw [if_pos hok]; simp only [noGapsText, if_true, hok, bne_self_eq_false, Bool.false_eq_true, if_false]
+      exact text _ hl habc hok
+    · rw [if_neg hok]; simp [noGapsText, hok]
 
 /-! ## esl_msa_AddGS / AppendGR / AppendGC: the unparsed-markup constructors -/
 
@@ -991,5 +1185,17 @@ example : exSq.f.seq.all Gen.rnaAbc.cIsValid = true := by decide
 example : (sqReverseComplement exSq).sq.f.seq = [0x41, 0x67, 0x54] ∧ (sqReverseComplement exSq).st = .ok := by decide
 example : (sqTextize (sqDigitize Gen.rnaAbc exSq).sq).sq.f.seq = [0x41, 0x43, 0x55] := by decide
 example : checksum exMsa = checksum { exMsa with sqname := [[0x61], [0x62]], rf := none } := by decide
+
+/-- both outcomes of `ct2wuss_total` occur, and the bound of `ct2wuss_ok_of_few_pk` is attained: `<A>` x 27 followed by
+    `a` x 27 has exactly 27 pseudoknotted pairs, each needing its own letter, and is refused with "not enough letters" -/
+def w27 : Bytes := (List.replicate 27 [0x3c, 0x41, 0x3e]).flatten ++ List.replicate 27 0x61
+example : (wuss2ct w27).isSome = true ∧ lettersExhausted ((wuss2ct w27).getD []) = true := by decide +kernel
+example : (pkPairs ((wuss2ct w27).getD [])).length = 27 := by decide +kernel
+/-- ... and is not necessary: one pseudoknot helix of 27 pairs crossing `<>` has 27 pseudoknotted pairs, takes one letter
+    and is converted (to itself) -/
+def h27 : Bytes := [0x3c] ++ List.replicate 27 0x41 ++ [0x3e] ++ List.replicate 27 0x61
+example : (pkPairs ((wuss2ct h27).getD [])).length = 27 ∧ (ct2wuss ((wuss2ct h27).getD [])).toOption = some h27 := by decide +kernel
+example : CtOk 4 [0, 3, 4, 1, 2] ∧ (pkPairs [0, 3, 4, 1, 2]).length ≤ 26 :=
+  ⟨wuss2ct_ctOk [0x3c, 0x41, 0x3e, 0x61] _ (by decide), by decide⟩
 
 end EaselModel.Props.C15
